@@ -100,3 +100,9 @@ META["C14"] = {
              "decides termination."),
     "note": "Exhaustive within the stated graph family, sampled beyond; the closure comes from lib/world.Reference.",
 }
+META["C17"] = {
+    "technique": "rapid PBT over version lists x allowed sets x request sequences; brute-force maximum as oracle; call-log and bundle-content invariants",
+    "text": ("Every registry request of a generated build is compared with the brute-force newest offered-and-allowed version (own semver "
+             "precedence); selections, source addresses, deprecation notes, error behaviour and the registry call log are checked."),
+    "note": "Membership of a version in an allowed set comes from go-versions; precedence is re-implemented in the harness.",
+}
